@@ -57,6 +57,9 @@ type Env struct {
 	RepoDir  string
 	VerifDir string
 	BuildS   float64
+	// GoyaccRegen: "identical", "differs: ..." or "unavailable: ..." — result
+	// of regenerating input/ast/chords_goyacc_generated.go from chords.y.
+	GoyaccRegen string
 
 	mu      sync.Mutex
 	workers chan *worker
@@ -137,6 +140,7 @@ func Build(repoDir, verifDir string) (*Env, error) {
 			return nil, e
 		}
 	}
+	env.GoyaccRegen = regenParser(plainSrc, scratch)
 	// sources are no longer needed
 	if os.Getenv("CRDSIM_KEEP") == "" {
 		os.RemoveAll(plainSrc)
@@ -554,4 +558,56 @@ func CloseActive() {
 	if ActiveEnv != nil {
 		ActiveEnv.Close()
 	}
+}
+
+// regenParser runs the repository's own generator (go tool goyacc, resolved
+// through go.mod's tool directive from the module cache) on chords.y in a
+// separate directory and compares the result with the committed parser.
+func regenParser(src, scratch string) string {
+	dir := filepath.Join(scratch, "regen")
+	astDir := filepath.Join(dir, "input", "ast")
+	if err := os.MkdirAll(astDir, 0o755); err != nil {
+		return "unavailable: " + err.Error()
+	}
+	defer os.RemoveAll(dir)
+	for _, f := range []string{"go.mod", "go.sum", "input/ast/chords.y"} {
+		b, err := os.ReadFile(filepath.Join(src, f))
+		if err != nil {
+			return "unavailable: " + err.Error()
+		}
+		if err := os.WriteFile(filepath.Join(dir, f), b, 0o644); err != nil {
+			return "unavailable: " + err.Error()
+		}
+	}
+	want, err := os.ReadFile(filepath.Join(src, "input/ast/chords_goyacc_generated.go"))
+	if err != nil {
+		return "unavailable: " + err.Error()
+	}
+	cmd := exec.Command(GoCmd, "tool", "goyacc", "-o", "chords_goyacc_generated.go", "-v", "chords_goyacc_generated.output", "chords.y")
+	cmd.Dir = astDir
+	cmd.Env = GoEnv()
+	if out, err := cmd.CombinedOutput(); err != nil {
+		return "unavailable: goyacc: " + err.Error() + ": " + first(out, 300)
+	}
+	got, err := os.ReadFile(filepath.Join(astDir, "chords_goyacc_generated.go"))
+	if err != nil {
+		return "unavailable: " + err.Error()
+	}
+	if bytes.Equal(got, want) {
+		return "identical"
+	}
+	gl, wl := strings.Split(string(got), "\n"), strings.Split(string(want), "\n")
+	for i := 0; i < len(gl) || i < len(wl); i++ {
+		var g, w string
+		if i < len(gl) {
+			g = gl[i]
+		}
+		if i < len(wl) {
+			w = wl[i]
+		}
+		if g != w {
+			return fmt.Sprintf("differs: line %d: goyacc generates %q, the tree has %q", i+1, first([]byte(g), 120), first([]byte(w), 120))
+		}
+	}
+	return "differs"
 }
